@@ -435,7 +435,7 @@ class Extractor:
                 out.append(self.expand(os.path.join(CONTRACTS, d.split()[1]), depth + 1))
             elif d.startswith("layout "):
                 import layouts
-                out.append(layouts.gen(d.split()[1]))
+                out.append(layouts.gen(d.split()[1], "+lemmas" in d.split(), "+append" in d.split()))
                 self.meta.setdefault("layouts", []).append(d.split()[1])
             elif d.startswith("stub "):
                 out.append(self.do_stub(d.split()[1]))
